@@ -91,6 +91,7 @@ theorem qinv_init (pool : Nat) : QInv (QS.init pool) := by
 /-- One step keeps the invariant. -/
 theorem step_inv (pool : Nat) (s : QS) (op : QOp) (h : QInv s) : QInv (s.step pool op) := by
   cases op with
+  | makeFails i ty => simpa [QS.step] using h
   | make i ty =>
     simp only [QS.step]
     split
@@ -210,6 +211,9 @@ theorem step_inv (pool : Nat) (s : QS) (op : QOp) (h : QInv s) : QInv (s.step po
       simp only [owners, deaths] at h1 ⊢
       omega
     · exact h
+
+/-- A creation whose constructor throws creates nothing, destroys nothing and leaves every owner as it was. -/
+theorem failed_creation_neutral (pool : Nat) (s : QS) (i ty : Nat) : s.step pool (.makeFails i ty) = s := rfl
 
 /-- **Every reachable state** of every history satisfies the ownership invariant. -/
 theorem history_inv (pool : Nat) (ops : List QOp) : QInv (QS.run pool (QS.init pool) ops) := by
